@@ -282,7 +282,7 @@ func scenUPL(s *sched.Sim, cfg Config, res *Result) {
 	if mutMode {
 		prop = "C06"
 		truncated = false
-		faultKind = []string{"ErrAfter", "StatusKeepBody", "ReadErr", "ErrBefore"}[s.T.Choose(4)]
+		faultKind = []string{"ErrAfter", "StatusKeepBody", "ReadErr", "ErrBefore", "answer-without-data", "answer-empty-object"}[s.T.Choose(6)]
 		nth := 1 + s.T.Choose(2)
 		seen := 0
 		env.net.FaultFor = func(m *simnet.Message) *simnet.Fault {
@@ -299,6 +299,11 @@ func scenUPL(s *sched.Sim, cfg Config, res *Result) {
 				return &simnet.Fault{Kind: "StatusKeepBody", Status: 502}
 			case "ReadErr":
 				return &simnet.Fault{Kind: "ReadErr", At: 4}
+			case "answer-without-data":
+				// the service processes the upload and answers with neither data nor errors
+				return &simnet.Fault{Kind: faultKind, Mutate: func([]byte) []byte { return []byte(`{"data":null}`) }}
+			case "answer-empty-object":
+				return &simnet.Fault{Kind: faultKind, Mutate: func([]byte) []byte { return []byte(`{}`) }}
 			}
 			return &simnet.Fault{Kind: faultKind}
 		}
